@@ -493,6 +493,51 @@ func c12GenElem(t *rapid.T, fd protoreflect.FieldDescriptor, depth int, g c12Gen
 	return C12Val{M: &m}
 }
 
+// c12GenField draws a populated value for field fd of a message at level depth.
+func c12GenField(t *rapid.T, fd protoreflect.FieldDescriptor, depth int, g c12GenCfg) C12Fld {
+	isMsg := fd.Kind() == protoreflect.MessageKind || (fd.IsMap() && fd.MapValue().Kind() == protoreflect.MessageKind)
+	f := C12Fld{Num: int32(fd.Number()), Name: string(fd.Name())}
+	switch {
+	case fd.IsMap():
+		n := rapid.IntRange(0, 4).Draw(t, "n")
+		if n == 0 {
+			f.Empty = true
+			break
+		}
+		seen := map[string]bool{}
+		for j := 0; j < n; j++ {
+			k := c12GenScalar(t, fd.MapKey())
+			if fd.MapKey().Kind() == protoreflect.StringKind && k.R > 300 {
+				k.R = 300
+			}
+			ks := c12KeyString(fd.MapKey(), k)
+			v := c12GenElem(t, fd.MapValue(), depth, g)
+			if seen[ks] {
+				continue // keys are unique by construction: later duplicates are dropped
+			}
+			seen[ks] = true
+			f.KV = append(f.KV, C12KV{K: k, V: v})
+		}
+	case fd.IsList():
+		max := 3
+		if !isMsg && rapid.IntRange(0, 9).Draw(t, "longlist") == 0 {
+			max = 40
+		}
+		n := rapid.IntRange(0, max).Draw(t, "n")
+		if n == 0 {
+			f.Empty = true
+			break
+		}
+		for j := 0; j < n; j++ {
+			f.L = append(f.L, c12GenElem(t, fd, depth, g))
+		}
+	default:
+		v := c12GenElem(t, fd, depth, g)
+		f.V = &v
+	}
+	return f
+}
+
 func c12GenMsg(t *rapid.T, md protoreflect.MessageDescriptor, depth int, g c12GenCfg) C12Msg {
 	var out C12Msg
 	fs := md.Fields()
@@ -510,46 +555,7 @@ func c12GenMsg(t *rapid.T, md protoreflect.MessageDescriptor, depth int, g c12Ge
 		if isMsg && depth >= g.maxDepth {
 			continue // depth bound: no sub-messages below maxDepth
 		}
-		f := C12Fld{Num: int32(fd.Number()), Name: string(fd.Name())}
-		switch {
-		case fd.IsMap():
-			n := rapid.IntRange(0, 4).Draw(t, "n")
-			if n == 0 {
-				f.Empty = true
-				break
-			}
-			seen := map[string]bool{}
-			for j := 0; j < n; j++ {
-				k := c12GenScalar(t, fd.MapKey())
-				if fd.MapKey().Kind() == protoreflect.StringKind && k.R > 300 {
-					k.R = 300
-				}
-				ks := c12KeyString(fd.MapKey(), k)
-				v := c12GenElem(t, fd.MapValue(), depth, g)
-				if seen[ks] {
-					continue // keys are unique by construction: later duplicates are dropped
-				}
-				seen[ks] = true
-				f.KV = append(f.KV, C12KV{K: k, V: v})
-			}
-		case fd.IsList():
-			max := 3
-			if !isMsg && rapid.IntRange(0, 9).Draw(t, "longlist") == 0 {
-				max = 40
-			}
-			n := rapid.IntRange(0, max).Draw(t, "n")
-			if n == 0 {
-				f.Empty = true
-				break
-			}
-			for j := 0; j < n; j++ {
-				f.L = append(f.L, c12GenElem(t, fd, depth, g))
-			}
-		default:
-			v := c12GenElem(t, fd, depth, g)
-			f.V = &v
-		}
-		out.F = append(out.F, f)
+		out.F = append(out.F, c12GenField(t, fd, depth, g))
 	}
 	return out
 }
@@ -567,7 +573,22 @@ func genC12(t *rapid.T) C12Case {
 		thr:      rapid.SampledFrom([]int{6, 4, 2, 0}).Draw(t, "density"),
 		decay:    rapid.IntRange(0, 2).Draw(t, "decay"),
 	}
-	return C12Case{Type: string(ty.md.FullName()), Origin: "random", Msg: c12GenMsg(t, ty.md, 0, g)}
+	c := C12Case{Type: string(ty.md.FullName()), Origin: "random", Msg: c12GenMsg(t, ty.md, 0, g)}
+	// which codec the oracle lets touch the object first
+	if rapid.Bool().Draw(t, "vtfirst") {
+		c.Order = "vt-first"
+	}
+	// 0,1: the freshly built message is judged; 2: history ending in a small in-place edit;
+	// 3: history ending in an in-place change to an independently drawn value
+	switch rapid.IntRange(0, 3).Draw(t, "hist") {
+	case 2:
+		c.Origin = "random-hist-edit"
+		c.Hist = c12GenHist(t, ty, &c.Msg, g, true)
+	case 3:
+		c.Origin = "random-hist-indep"
+		c.Hist = c12GenHist(t, ty, &c.Msg, g, false)
+	}
+	return c
 }
 
 // ---- tests -------------------------------------------------------------------------------
@@ -589,6 +610,9 @@ func TestProp_C12(t *testing.T) {
 	ev.Get("C12").NoJournal()
 	c12SelfCheck(t)
 	ev.Run(t, "C12", genC12, runC12Counted)
+	if c12MorphMismatch > 0 {
+		t.Errorf("harness: %d history case(s) in which the in-place modification did not produce the named value (not judged)", c12MorphMismatch)
+	}
 	if t.Failed() || os.Getenv("VERIF_REPLAY") != "" {
 		return
 	}
@@ -636,7 +660,8 @@ func TestExh_C12(t *testing.T) {
 	n, failed := 0, 0
 	var minRaw []byte
 	var minOut ev.Outcome
-	c12Sweep(level, func(c C12Case) {
+	histCases := 0
+	run := func(c C12Case) {
 		raw := ev.Snapshot(c)
 		o := runC12(c)
 		n++
@@ -648,7 +673,14 @@ func TestExh_C12(t *testing.T) {
 		if minRaw == nil || len(raw) < len(minRaw) {
 			minRaw, minOut = raw, o
 		}
-	})
+	}
+	c12Sweep(level, run)
+	n0 := n
+	c12HistSweep(ev.Pick(0, 2), run)
+	histCases = n - n0
+	if c12MorphMismatch > 0 {
+		t.Errorf("harness: %d history case(s) in which the in-place modification did not produce the named value (not judged)", c12MorphMismatch)
+	}
 	if failed > 0 {
 		r.AddExtra("sweep_failures", failed)
 		r.Record(json.RawMessage(minRaw), minOut)
@@ -660,6 +692,7 @@ func TestExh_C12(t *testing.T) {
 	r.SetExtra("type_names", strings.Join(c12TypeNames(types), ","))
 	r.SetExtra("fields_total", fields)
 	r.SetExtra("sweep_cases", n)
+	r.SetExtra("sweep_history_cases", histCases)
 	r.SetExtra("sweep_sub_levels", level)
 	r.SetExtra("exhaustive", false)
 	if len(withoutVT) > 0 || len(c12NoType) > 0 {
